@@ -77,6 +77,8 @@ Definition resolve (size : nat) (s : vstate) (h : half) (o : nat) : option (nat 
   end.
 
 (** page rounding: [min_size.div_ceil(page) * page] *)
+(** Rust's [usize::div_ceil] *)
+Definition div_ceil (a b : nat) : nat := a / b + (if a mod b =? 0 then 0 else 1).
 Definition page_mul (page m : nat) : nat := ((m + page - 1) / page) * page.
 
 (** release of a vmem HeapStorage, regenerated from heap/mod.rs *)
